@@ -22,4 +22,11 @@ Definition c14x_ic (sys : nat) (G : graph) (nodelist : list node) (idx : node ->
   let V0 := node_V0 sys G nodelist X0 Y0 in
   (V0, (perm_state idx nl2 sys V0, node_V0 sys G' (map phi nl2) (blk1 idx nl2 0 X0) (blk1 idx nl2 0 Y0))).
 
-Extraction "../ocaml/gen/c14x_model.ml" glue_types14 c14x_eval c14x_ic perm_state veqb Qred.
+(* the *_pure_IC entry points: initial vector from the initial sets, its re-ordering, initial vector of problem 2 from the renamed sets *)
+Definition c14x_pure_ic (sys : nat) (G : graph) (nodelist : list node) (idx : node -> nat)
+           (G' : graph) (nl2 : list node) (phi : node -> node) (I0 R0 : list node) : vec * (vec * vec) :=
+  let V0 := node_V0 sys G nodelist (x0_sets nodelist I0 R0) (y0_set nodelist I0) in
+  (V0, (perm_state idx nl2 sys V0,
+        node_V0 sys G' (map phi nl2) (x0_sets (map phi nl2) (map phi I0) (map phi R0)) (y0_set (map phi nl2) (map phi I0)))).
+
+Extraction "../ocaml/gen/c14x_model.ml" glue_types14 c14x_eval c14x_ic c14x_pure_ic perm_state veqb Qred.
